@@ -210,5 +210,9 @@ func (e *Exec) mergeInto(g, s *State, cs *term.Term) bool {
 	if s.instrs > g.instrs {
 		g.instrs = s.instrs
 	}
+	if g.unverified && !s.unverified {
+		g.witness = s.witness
+		g.unverified = false
+	}
 	return true
 }
